@@ -731,3 +731,181 @@ package middleware
 //@ func (*UntypedRequestBinder).setDebugLogf
 //@ requires o != nil
 //@ assigns o.debugLogf, \opaque
+
+// ---------------------------------------------------------------- parameter.go / request.go: parameter binding (C03)
+// validSimple(type, items): a non-body declaration the description language allows - one of the simple
+// types, or an array whose items are again such a declaration. declsOK() unfolds it over the description
+// document as it is when the function is entered (an assumption about the document, not about the code).
+//@ logic validSimple(string, *spec.Items) bool
+//@ spec declsOK() := forall t string, it *spec.Items :: validSimple(t, it) ==> (t == "string" || t == "number" || t == "integer" || t == "boolean" || t == "file" || (t == "array" && it != nil && validSimple(it.Type, it.Items)))
+
+//@ func (*untypedParamBinder).typeForSchema
+//@ watch GT = invoke (github.com/go-openapi/strfmt.Registry).GetType
+//@ assume after GT forall n int :: called(GT,n) && ret(GT,n,1) ==> ret(GT,n,0) != nil && rtBase(ret(GT,n,0)) != 1
+//@ watch EL = invoke (reflect.Type).Elem
+//@ assume after EL forall n int :: called(EL,n) ==> rtKind(ret(EL,n,0)) == 25
+//@ requires p != nil && p.formats != nil && declsOK()
+//@ stable comp:F!github.com/go-openapi/spec.SimpleSchema!Type, comp:F!github.com/go-openapi/spec.SimpleSchema!Items, comp:F!github.com/go-openapi/spec.SimpleSchema!Format
+//@ ensures [C03:type] validSimple(tpe, items) ==> result != nil
+//@ ensures [C03:unknown] tpe != "string" && tpe != "number" && tpe != "integer" && tpe != "boolean" && tpe != "file" && tpe != "array" && tpe != "object" ==> result == nil
+//@ ensures [C03:boolkind] result != nil && rtBase(result) == 1 ==> tpe == "boolean"
+//@ assigns \opaque
+
+//@ func (*untypedParamBinder).Type
+//@ requires p != nil && p.parameter != nil && p.formats != nil && declsOK()
+//@ ensures [C03:type] validSimple(old(p.parameter.Type), old(p.parameter.Items)) ==> result != nil
+//@ ensures [C03:boolkind] result != nil && rtBase(result) == 1 ==> old(p.parameter.Type) == "boolean"
+//@ assigns \opaque
+
+//@ func (*untypedParamBinder).allowsMulti
+//@ requires p != nil && p.parameter != nil
+//@ ensures result <==> p.parameter.In == "query" || p.parameter.In == "formData"
+//@ assigns \nothing
+
+// readValue: the values of the parameter looked up by its declared name under the rules of its location
+// (header names canonically, as net/http stores them); for arrays in a single value, the last occurrence is split.
+//@ func (*untypedParamBinder).readValue
+//@ watch GOK = invoke (runtime.Gettable).GetOK
+//@ watch RF = call (*untypedParamBinder).readFormattedSliceFieldValue
+//@ watch ICF = call github.com/go-openapi/errors.InvalidCollectionFormat
+//@ watch CK = call net/http.CanonicalHeaderKey
+//@ requires p != nil && p.parameter != nil && values != nil && rvValid(target) && textUnmarshalType != nil
+//@ assume after GOK forall n int :: called(GOK,n) && ret(GOK,n,2) ==> len(ret(GOK,n,0)) > 0
+//@ spec isArr() := old(p.parameter.Type) == "array"
+//@ spec isMulti() := old(p.parameter.CollectionFormat) == "multi"
+//@ spec multiOK() := old(p.parameter.In) == "query" || old(p.parameter.In) == "formData"
+//@ ensures [C03:key] calls(GOK) <= 1 && (calls(GOK) == 1 ==> recv(GOK,0) == values && (old(p.parameter.In) == "header" ==> calls(CK) == 1 && arg(CK,0,0) == old(p.parameter.Name) && arg(GOK,0,0) == ret(CK,0,0)) && (old(p.parameter.In) != "header" ==> arg(GOK,0,0) == old(p.parameter.Name)))
+//@ ensures [C03:scalar] !isArr() || (isMulti() && multiOK()) ==> calls(GOK) == 1 && result0 == ret(GOK,0,0) && !result1 && result2 == ret(GOK,0,1) && result3 == nil && calls(RF) == 0
+//@ ensures [C03:badmulti] isArr() && isMulti() && !multiOK() ==> calls(GOK) == 0 && calls(ICF) == 1 && arg(ICF,0,0) == old(p.parameter.Name) && result3 != nil
+//@ ensures [C03:absent] isArr() && !isMulti() && !ret(GOK,0,2) ==> calls(GOK) == 1 && result0 == nil && !result1 && result2 == ret(GOK,0,1) && result3 == nil && calls(RF) == 0
+//@ ensures [C03:last] isArr() && !isMulti() && ret(GOK,0,2) ==> calls(GOK) == 1 && calls(RF) == 1 && arg(RF,0,0) == p && arg(RF,0,1) == before(RF, ret(GOK,0,0)[len(ret(GOK,0,0))-1]) && arg(RF,0,2) == target && result0 == ret(RF,0,0) && result1 == ret(RF,0,1) && result2 == ret(GOK,0,1) && result3 == ret(RF,0,2)
+
+// bindValue: scalars take the last occurrence; arrays take all values.
+//@ func (*untypedParamBinder).bindValue
+//@ watch SS = call (*untypedParamBinder).setSliceFieldValue
+//@ watch SF = call (*untypedParamBinder).setFieldValue
+//@ requires p != nil && p.parameter != nil && rvValid(target) && textUnmarshalType != nil
+//@ requires rtBase(rvType(target)) == 1 && p.parameter.Default != nil ==> dynkind(p.parameter.Default) == 1
+//@ ensures [C03:array] old(p.parameter.Type) == "array" ==> calls(SS) == 1 && calls(SF) == 0 && arg(SS,0,0) == p && arg(SS,0,1) == target && arg(SS,0,2) == old(p.parameter.Default) && arg(SS,0,3) == data && arg(SS,0,4) == hasKey && result == ret(SS,0,0)
+//@ ensures [C03:lastvalue] old(p.parameter.Type) != "array" ==> calls(SF) == 1 && calls(SS) == 0 && arg(SF,0,0) == p && arg(SF,0,1) == target && arg(SF,0,2) == old(p.parameter.Default) && arg(SF,0,3) == (len(data) > 0 ? old(data[len(data)-1]) : "") && arg(SF,0,4) == hasKey && result == ret(SF,0,0)
+
+// setFieldValue: the text of one value is parsed by the parser of the target's kind, checked against the
+// target's width, and only then stored; a missing required value, a text that does not parse or that does
+// not fit answer an error naming the parameter and store nothing.
+//@ func (*untypedParamBinder).setFieldValue
+//@ watch REQ = call github.com/go-openapi/errors.Required
+//@ watch IT = call github.com/go-openapi/errors.InvalidType
+//@ watch TU = call (*untypedParamBinder).tryUnmarshaler
+//@ watch PI = call strconv.ParseInt
+//@ watch PU = call strconv.ParseUint
+//@ watch PF = call strconv.ParseFloat
+//@ watch CB = call github.com/go-openapi/swag.ConvertBool
+//@ watch OI = call (reflect.Value).OverflowInt
+//@ watch OU = call (reflect.Value).OverflowUint
+//@ watch OF = call (reflect.Value).OverflowFloat
+//@ watch SI = call (reflect.Value).SetInt
+//@ watch SU = call (reflect.Value).SetUint
+//@ watch SFL = call (reflect.Value).SetFloat
+//@ watch SB = call (reflect.Value).SetBool
+//@ watch SST = call (reflect.Value).SetString
+//@ requires p != nil && p.parameter != nil && rvValid(target) && textUnmarshalType != nil
+//@ requires rtBase(rvType(target)) == 1 && defaultValue != nil ==> dynkind(defaultValue) == 1
+//@ assigns \opaque
+//@ stable comp:G!github.com/go-openapi/runtime/middleware.textUnmarshalType
+//@ spec missing() := (!hasKey || (!old(p.parameter.AllowEmptyValue) && data == "")) && old(p.parameter.Required) && old(p.parameter.Default) == nil
+//@ spec noStore() := calls(SI) == 0 && calls(SU) == 0 && calls(SFL) == 0 && calls(SB) == 0 && calls(SST) == 0
+//@ ensures [C03:required] missing() ==> result != nil && calls(REQ) == 1 && arg(REQ,0,0) == old(p.Name) && arg(REQ,0,1) == old(p.parameter.In) && calls(TU) == 0 && noStore()
+//@ ensures [C03:unmarshaler] !missing() ==> calls(REQ) == 0 && calls(TU) == 1 && arg(TU,0,0) == p && arg(TU,0,1) == target && arg(TU,0,2) == defaultValue && arg(TU,0,3) == data && (ret(TU,0,1) != nil ==> result != nil && noStore()) && (ret(TU,0,1) == nil && ret(TU,0,0) ==> result == nil && noStore())
+//@ ensures [C03:int] calls(PI) <= 1 && calls(SI) <= 1 && (calls(PI) == 1 ==> arg(PI,0,0) == data && arg(PI,0,1) == 10 && arg(PI,0,2) == 64 && (ret(PI,0,1) != nil ==> result != nil && calls(IT) == 1 && arg(IT,0,0) == old(p.Name) && noStore()) && (ret(PI,0,1) == nil ==> calls(OI) == 1 && arg(OI,0,0) == target && arg(OI,0,1) == ret(PI,0,0) && (ret(OI,0,0) ==> result != nil && calls(IT) == 1 && noStore()) && (!ret(OI,0,0) ==> result == nil && (calls(SI) == 1 <==> rvCanSet(target)) && (calls(SI) == 1 ==> arg(SI,0,0) == target && arg(SI,0,1) == ret(PI,0,0)))))
+//@ ensures [C03:uint] calls(PU) <= 1 && calls(SU) <= 1 && (calls(PU) == 1 ==> arg(PU,0,0) == data && arg(PU,0,1) == 10 && arg(PU,0,2) == 64 && (ret(PU,0,1) != nil ==> result != nil && calls(IT) == 1 && noStore()) && (ret(PU,0,1) == nil ==> calls(OU) == 1 && arg(OU,0,0) == target && arg(OU,0,1) == ret(PU,0,0) && (ret(OU,0,0) ==> result != nil && calls(IT) == 1 && noStore()) && (!ret(OU,0,0) ==> result == nil && (calls(SU) == 1 <==> rvCanSet(target)) && (calls(SU) == 1 ==> arg(SU,0,0) == target && arg(SU,0,1) == ret(PU,0,0)))))
+//@ ensures [C03:float] calls(PF) <= 1 && calls(SFL) <= 1 && (calls(PF) == 1 ==> arg(PF,0,0) == data && arg(PF,0,1) == 64 && (ret(PF,0,1) != nil ==> result != nil && calls(IT) == 1 && noStore()) && (ret(PF,0,1) == nil ==> calls(OF) == 1 && arg(OF,0,0) == target && arg(OF,0,1) == ret(PF,0,0) && (ret(OF,0,0) ==> result != nil && calls(IT) == 1 && noStore()) && (!ret(OF,0,0) ==> result == nil && (calls(SFL) == 1 <==> rvCanSet(target)) && (calls(SFL) == 1 ==> arg(SFL,0,0) == target && arg(SFL,0,1) == ret(PF,0,0)))))
+//@ ensures [C03:bool] calls(CB) <= 1 && calls(SB) <= 1 && (calls(CB) == 1 ==> arg(CB,0,0) == data && (ret(CB,0,1) != nil ==> result == ret(CB,0,1) && noStore()) && (ret(CB,0,1) == nil ==> result == nil && (calls(SB) == 1 <==> rvCanSet(target)) && (calls(SB) == 1 ==> arg(SB,0,0) == target && arg(SB,0,1) == ret(CB,0,0))))
+//@ spec plain() := !missing() && ret(TU,0,1) == nil && !ret(TU,0,0) && !(old(p.parameter.Format) == "byte" || (old(p.parameter.Format) == "" && old(p.parameter.Type) == "byte"))
+//@ ensures [C03:parser] plain() && data != "" ==> (2 <= rvKind(target) && rvKind(target) <= 6 ==> calls(PI) == 1) && (7 <= rvKind(target) && rvKind(target) <= 11 ==> calls(PU) == 1) && (13 <= rvKind(target) && rvKind(target) <= 14 ==> calls(PF) == 1) && (rvKind(target) == 1 ==> calls(CB) == 1)
+//@ ensures [C03:string] plain() && rvKind(target) == 24 ==> result == nil && (calls(SST) == 1 <==> rvCanSet(target)) && (calls(SST) == 1 && data != "" ==> arg(SST,0,0) == target && arg(SST,0,1) == data)
+
+// tryUnmarshaler / readFormattedSliceFieldValue: they store through reflect only (outside code); frame contracts.
+//@ func (*untypedParamBinder).tryUnmarshaler
+//@ watch IMP = invoke (reflect.Type).Implements
+//@ watch IF = call (reflect.Value).Interface
+//@ requires p != nil && rvValid(target) && textUnmarshalType != nil
+//@ assume after IF calls(IMP) == 1 && ret(IMP,0,0) ==> implements(ret(IF,0,0), "encoding.TextUnmarshaler")
+//@ assigns \opaque
+//@ func (*untypedParamBinder).readFormattedSliceFieldValue
+//@ requires p != nil && p.parameter != nil && rvValid(target) && textUnmarshalType != nil
+//@ assigns \opaque
+
+// setSliceFieldValue: every item is bound by setFieldValue into a new slice of the target's element type,
+// which is stored only when all items were accepted; absent values give the declared default (bound item by
+// item when it comes from the description document as []interface{}), a missing required value an error.
+//@ func (*untypedParamBinder).setSliceFieldValue
+//@ watch REQ = call github.com/go-openapi/errors.Required
+//@ watch MS = call reflect.MakeSlice
+//@ watch IX = call (reflect.Value).Index
+//@ watch SF = call (*untypedParamBinder).setFieldValue
+//@ watch ST = call (reflect.Value).Set
+//@ watch AT = invoke (reflect.Type).AssignableTo
+//@ requires p != nil && p.parameter != nil && rvValid(target) && textUnmarshalType != nil && (rvCanSet(target) ==> rvKind(target) == 23)
+//@ stable data[*], comp:G!github.com/go-openapi/runtime/middleware.textUnmarshalType
+//@ spec missingArr() := (!hasKey || (!old(p.parameter.AllowEmptyValue) && (len(data) == 0 || (len(data) == 1 && old(data[0]) == "")))) && old(p.parameter.Required) && defaultValue == nil
+//@ ensures [C03:required] missingArr() ==> result != nil && calls(REQ) == 1 && arg(REQ,0,0) == old(p.Name) && arg(REQ,0,1) == old(p.parameter.In) && calls(ST) == 0 && calls(SF) == 0
+//@ ensures [C03:noset] !missingArr() && !rvCanSet(target) ==> result == nil && calls(ST) == 0 && calls(SF) == 0
+//@ ensures [C03:items] !missingArr() && rvCanSet(target) && len(data) > 0 ==> calls(REQ) == 0 && calls(MS) == 1 && arg(MS,0,1) == len(data) && calls(SF) <= len(data) && calls(SF) >= 1 && forall i int :: 0 <= i && i < calls(SF) ==> arg(SF,i,0) == p && arg(SF,i,1) == ret(IX,i,0) && arg(IX,i,0) == ret(MS,0,0) && arg(IX,i,1) == i && arg(SF,i,2) == nil && arg(SF,i,3) == old(data[i]) && arg(SF,i,4) == hasKey && (i < calls(SF)-1 ==> ret(SF,i,0) == nil)
+//@ ensures [C03:itemfail] !missingArr() && rvCanSet(target) && len(data) > 0 && ret(SF,calls(SF)-1,0) != nil ==> result == ret(SF,calls(SF)-1,0) && calls(ST) == 0
+//@ ensures [C03:allitems] !missingArr() && rvCanSet(target) && len(data) > 0 && ret(SF,calls(SF)-1,0) == nil ==> result == nil && calls(SF) == len(data) && calls(ST) == 1 && arg(ST,0,0) == target && arg(ST,0,1) == ret(MS,0,0)
+//@ ensures [C03:nodefault] !missingArr() && rvCanSet(target) && len(data) == 0 && defaultValue == nil ==> result == nil && calls(SF) == 0 && calls(ST) == 1 && arg(ST,0,0) == target
+//@ loop 0 invariant calls(REQ) == 0 && calls(SF) == 0 && calls(MS) == 0 && calls(ST) == 0 && calls(IX) == rangeindex+1 && len(data0) == 0 && defaultValue != nil && rvValid(defVal) && len(data) == rvLen(defVal) && rvCanSet(target)
+//@ loop 1 invariant calls(REQ) == 0 && calls(MS) == 1 && value == ret(MS,0,0) && rvValid(value) && rvLen(value) == sz && sz == len(data) && 0 <= i && i <= sz && calls(SF) == i && calls(ST) == 0 && rvCanSet(target) && !missingArr()
+//@ loop 1 invariant len(data0) > 0 ==> data == data0 && calls(IX) == i
+//@ loop 1 invariant forall k int :: 0 <= k && k < i ==> ret(SF,k,0) == nil && arg(SF,k,0) == p && arg(SF,k,2) == nil && arg(SF,k,3) == data[k] && arg(SF,k,4) == hasKey && (len(data0) > 0 ==> arg(SF,k,1) == ret(IX,k,0) && arg(IX,k,0) == ret(MS,0,0) && arg(IX,k,1) == k)
+
+// (*untypedParamBinder).Bind: the value source of each location, then readValue and bindValue.
+//@ func (*untypedParamBinder).Bind
+//@ watch RV = call (*untypedParamBinder).readValue
+//@ watch BV = call (*untypedParamBinder).bindValue
+//@ watch Q = call (*net/url.URL).Query
+//@ watch CT = call runtime.ContentType
+//@ watch HB = call runtime.HasBody
+//@ watch CO = invoke (runtime.Consumer).Consume
+//@ requires p != nil && p.parameter != nil && request != nil && request.URL != nil && rvValid(target) && textUnmarshalType != nil
+//@ requires rtBase(rvType(target)) == 1 && p.parameter.Default != nil ==> dynkind(p.parameter.Default) == 1
+//@ requires p.parameter.In == "body" ==> consumer != nil
+//@ stable comp:G!github.com/go-openapi/runtime/middleware.textUnmarshalType, comp:F!github.com/go-openapi/spec.SimpleSchema!Default, comp:F!github.com/go-openapi/spec.SimpleSchema!Type, comp:F!github.com/go-openapi/spec.SimpleSchema!Format, comp:F!github.com/go-openapi/spec.SimpleSchema!CollectionFormat, comp:F!github.com/go-openapi/spec.ParamProps!In, comp:F!github.com/go-openapi/spec.ParamProps!Name, comp:F!github.com/go-openapi/spec.ParamProps!Required, comp:F!github.com/go-openapi/spec.ParamProps!AllowEmptyValue
+//@ spec loc() := old(p.parameter.In)
+//@ ensures [C03:query] loc() == "query" ==> calls(RV) == 1 && calls(Q) == 1 && arg(Q,0,0) == old(request.URL) && arg(RV,0,1) == boxas(ret(Q,0,0), "runtime.Values") && arg(RV,0,2) == target
+//@ ensures [C03:header] loc() == "header" ==> calls(RV) == 1 && arg(RV,0,1) == boxas(old(request.Header), "runtime.Values") && arg(RV,0,2) == target
+//@ ensures [C03:path] loc() == "path" ==> calls(RV) == 1 && arg(RV,0,1) == boxas(routeParams, "RouteParams") && arg(RV,0,2) == target
+//@ ensures [C03:bind] loc() == "query" || loc() == "header" || loc() == "path" ==> (ret(RV,0,3) != nil ==> result == ret(RV,0,3) && calls(BV) == 0) && (ret(RV,0,3) == nil && ret(RV,0,1) ==> result == nil && calls(BV) == 0) && (ret(RV,0,3) == nil && !ret(RV,0,1) ==> calls(BV) == 1 && arg(BV,0,0) == p && arg(BV,0,1) == ret(RV,0,0) && arg(BV,0,2) == ret(RV,0,2) && arg(BV,0,3) == target && result == ret(BV,0,0))
+//@ ensures [C03:formtype] loc() == "formData" ==> calls(CT) == 1 && arg(CT,0,0) == old(request.Header) && (ret(CT,0,2) != nil || (ret(CT,0,0) != "multipart/form-data" && ret(CT,0,0) != "application/x-www-form-urlencoded") ==> result != nil && calls(RV) == 0 && calls(BV) == 0)
+//@ ensures [C03:unknownloc] loc() != "query" && loc() != "header" && loc() != "path" && loc() != "formData" && loc() != "body" ==> result != nil && calls(RV) == 0 && calls(BV) == 0 && calls(CO) == 0
+//@ ensures [C03:body] loc() == "body" ==> calls(HB) == 1 && arg(HB,0,0) == request && calls(RV) == 0 && calls(BV) == 0 && (!ret(HB,0,0) ==> result == nil && calls(CO) == 0) && (ret(HB,0,0) ==> calls(CO) == 1 && recv(CO,0) == consumer && (ret(CO,0,0) == nil ==> result == nil))
+
+// (*UntypedRequestBinder).Bind: every declared parameter is bound; the validator of a parameter runs exactly when
+// its binding succeeded; every binding or validation failure is collected and answers one composite error.
+// data is a pointer to a map or to a struct (its documented use): assumed after the Indirect call.
+//@ func (*UntypedRequestBinder).Bind
+//@ watch IND = call reflect.Indirect
+//@ watch BB = call (*untypedParamBinder).Bind tag mappos-1
+//@ watch VAL = invoke (github.com/go-openapi/validate.EntityValidator).Validate tag mappos-1
+//@ watch HE = call (*github.com/go-openapi/validate.Result).HasErrors tag mappos-1
+//@ watch CVE = call github.com/go-openapi/errors.CompositeValidationError
+//@ requires o != nil && request != nil && request.URL != nil && o.debugLogf != nil && textUnmarshalType != nil && declsOK()
+//@ requires forall k string :: in(k, o.Parameters) ==> in(k, o.paramBinders) && mapat(o.paramBinders, k) != nil && mapat(o.paramBinders, k).parameter != nil && mapat(o.paramBinders, k).formats != nil
+//@ requires forall k string :: in(k, o.Parameters) && mapat(o.paramBinders, k).parameter.In != "body" ==> validSimple(mapat(o.paramBinders, k).parameter.Type, mapat(o.paramBinders, k).parameter.Items)
+//@ requires forall k string :: in(k, o.Parameters) && mapat(o.paramBinders, k).parameter.In == "body" ==> consumer != nil && mapat(o.Parameters, k).ParamProps.Schema != nil
+//@ requires forall k string :: in(k, o.Parameters) && mapat(o.paramBinders, k).parameter.Default != nil ==> dynkind(mapat(o.paramBinders, k).parameter.Default) == 1 || mapat(o.paramBinders, k).parameter.Type != "boolean"
+//@ assume after IND calls(IND) == 1 ==> (rvKind(ret(IND,0,0)) == 21 || rvKind(ret(IND,0,0)) == 25)
+//@ watch FBN = call (reflect.Value).FieldByName tag mappos-1
+//@ assume after FBN forall i int :: called(FBN,i) && rtBase(rvType(ret(FBN,i,0))) == 1 ==> mapat(o.paramBinders, mapkey(i)).parameter.Type == "boolean"
+//@ stable request.URL, o.Parameters[*], o.paramBinders[*], comp:G!github.com/go-openapi/runtime/middleware.textUnmarshalType, comp:F!github.com/go-openapi/spec.SimpleSchema!Default, comp:F!github.com/go-openapi/spec.SimpleSchema!Type, comp:F!github.com/go-openapi/spec.SimpleSchema!Items, comp:F!github.com/go-openapi/spec.SimpleSchema!Format, comp:F!github.com/go-openapi/spec.ParamProps!In, comp:F!github.com/go-openapi/spec.ParamProps!Schema
+//@ spec failed(i) := (called(BB,i) && ret(BB,i,0) != nil) || (called(HE,i) && ret(HE,i,0))
+//@ ensures [C03:validate] forall i int :: called(VAL,i) ==> called(BB,i) && ret(BB,i,0) == nil && recv(VAL,i) == mapat(o.paramBinders, inloop(0, mapkey(i))).validator
+//@ ensures [C03:validated] forall i int :: called(BB,i) && ret(BB,i,0) == nil && mapat(o.paramBinders, inloop(0, mapkey(i))).validator != nil ==> called(VAL,i)
+//@ ensures [C03:422] (exists i int :: failed(i)) ==> result != nil && calls(CVE) == 1
+//@ ensures [C03:ok] result != nil ==> calls(CVE) == 1 && len(arg(CVE,0,0)) > 0
+//@ loop 0 invariant calls(IND) >= 1 && calls(CVE) == 0 && 0 <= mappos && mappos <= mapcard && (rvKind(val) == 21 || rvKind(val) == 25) && (isMap <==> rvKind(val) == 21)
+//@ loop 0 invariant forall i int :: called(BB,i) ==> 0 <= i && i < mappos
+//@ loop 0 invariant forall i int :: called(VAL,i) ==> 0 <= i && i < mappos && called(BB,i) && ret(BB,i,0) == nil && recv(VAL,i) == mapat(o.paramBinders, mapkey(i)).validator
+//@ loop 0 invariant forall i int :: called(HE,i) ==> 0 <= i && i < mappos
+//@ loop 0 invariant forall i int :: called(BB,i) && ret(BB,i,0) == nil && mapat(o.paramBinders, mapkey(i)).validator != nil ==> called(VAL,i)
+//@ loop 0 invariant (exists i int :: failed(i)) ==> len(result) > 0
